@@ -14,7 +14,7 @@
     drain loop always suffices, so every event ends at rest and [sreach] -- the
     states reachable from a fresh session by any events -- are all at rest. *)
 From Coq Require Import List NArith Bool Arith Lia.
-From SV Require Import Common.Slab C19.Model C19.Proofs C19.Shell C19.ShellProofs.
+From SV Require Import Common.Slab C19.Model C19.Proofs C19.Shell C19.ShellProofs C19.ShellSticky.
 Import ListNotations.
 
 Inductive sreach (hash : bool -> addr -> N) : shell -> Prop :=
@@ -76,6 +76,48 @@ Proof.
   destruct (quiescent_sockets sh HG Hq) as (_ & Hfl & Hlive & _). split.
   - destruct (Hlive s1 H1) as (f & Hf & _ & Hb). eauto.
   - intros E. eapply flow_unique; eauto.
+Qed.
+
+Lemma sreach_GQ2 hash sh : sreach hash sh -> GQ2 sh /\ sh_q sh = [].
+Proof.
+  induction 1 as [c mf mrx a|sh now e sched ev Hr (HG & Hq)].
+  - split; [apply GQ2_new | reflexivity].
+  - split; [apply GQ2_step; assumption | apply shell_step_at_rest; exact Hq].
+Qed.
+
+(** [e2e_sticky], socket selection.  At rest, take a client source [src] that the
+    manager's table routes (under the current affinity mode) to an established flow
+    [id] of incarnation [f_inc f] with backend [b].  Then that flow HAS an upstream
+    socket, opened for that very incarnation, connected to [b], whose shadow key is the
+    key of [src]; and the shell's shadow table can map the key of [src] to no other
+    flow.  Hence [on_send_to_backend] -- which, for a datagram of an established flow,
+    looks the flow up under [client_key src] -- either finds exactly this socket or
+    nothing: it never writes the datagram to another flow's socket. *)
+Theorem e2e_sticky_never_another_flows_socket :
+  forall hash sh src id f b, sreach hash sh ->
+    tget (m_table (sh_mgr sh)) (client_key sh src) = Some id ->
+    sget (m_flows (sh_mgr sh)) id = Some f -> f_backend_addr f = Some b ->
+    (exists s, In s (sh_socks sh) /\ s_flow s = id /\ s_inc s = f_inc f /\ s_backend s = b /\
+               s_key s = Some (client_key sh src)) /\
+    (forall id', tget (sh_key2f sh) (client_key sh src) = Some id' -> id' = id).
+Proof.
+  intros hash sh src id f b H Ht Hf Hb. destruct (sreach_GQ2 hash sh H) as ([HG HN HO] & Hq).
+  pose proof (g_inv _ HG) as HI.
+  destruct (inv_tab_slab _ HI _ _ Ht) as (f0 & Hf0 & Hk). assert (f0 = f) as -> by congruence.
+  split.
+  - destruct (in_dec Nat.eq_dec id (flows_of (sh_socks sh))) as [Hin|Hnin].
+    + unfold flows_of in Hin. apply in_map_iff in Hin. destruct Hin as (s & Es & Hs).
+      exists s. split; [exact Hs|]. split; [exact Es|].
+      destruct (g_sock _ HG s Hs) as [(g & Hg & Hi & Hgb)|Hc]; [|rewrite Hq in Hc; destruct Hc].
+      assert (g = f) as -> by (rewrite Es, Hf in Hg; congruence).
+      split; [symmetry; exact Hi|]. split; [congruence|].
+      rewrite <- Hk. apply (HO s f Hs); [rewrite Es; exact Hf | exact Hi].
+    + exfalso. rewrite Hq in HN. destruct (HN _ _ Hf Hnin) as (_ & [(_ & l & cl & k & [])|(l & a & [])]).
+  - intros id' Hk2. destruct (g_k _ HG _ _ Hk2) as (s' & Hs' & Ef' & Ek').
+    destruct (g_sock _ HG s' Hs') as [(g & Hg & Hi & _)|Hc]; [|rewrite Hq in Hc; destruct Hc].
+    pose proof (HO s' g Hs' Hg Hi) as Ho. rewrite Ek' in Ho.
+    assert (own_key g = client_key sh src) as Eo by congruence.
+    pose proof (inv_slab_tab _ HI _ _ Hg) as Ht'. rewrite Eo, Ht in Ht'. congruence.
 Qed.
 
 (** [e2e_isolated]: a datagram read from the upstream socket [tok] is handed to the
